@@ -91,6 +91,7 @@ func WithCancel(parent Context) (Context, CancelFunc) {
 func WithTimeout(parent Context, d vtime.Duration) (Context, CancelFunc) {
 	c := newCtx(parent)
 	t := vtime.AfterFunc(d, func() { c.cancel(DeadlineExceeded) })
+	t.Tag = "context"
 	return c, func() {
 		t.Stop()
 		c.cancel(Canceled)
